@@ -262,6 +262,35 @@ fn operand_f64(ctx: &mut Ctx, a: Dd, emin: i64, emax: i64) -> f64 {
     }
 }
 
+/// Operands shaped like the near-worst cases of the double-word product/quotient analyses
+/// (Joldes, Muller, Popescu): high words a little above a power of two at different scales
+/// (1 + eps, eps log-uniform), low words close to (not on) the half-ulp tie with the sign of
+/// the high word, so that the individual rounding errors line up.
+fn aligned_rounding_pair(ctx: &mut Ctx, emin: i64, emax: i64) -> (Dd, Dd) {
+    ctx.label("rel:aligned-rounding");
+    let mut mk = |ctx: &mut Ctx| -> Dd {
+        let e = exp_in(ctx, emin, emax - 1);
+        let raw = ctx.bits(52);
+        let k = 2 + (ctx.below(44)) as u32;
+        let m = (raw >> k).max(1);
+        let neg = ctx.flag();
+        let hi = f64::from_bits(((neg as u64) << 63) | (((e + 1023) as u64) << 52) | m);
+        // |lo| = half-ulp * (1 - 2^-j * r), same sign as hi (or opposite, 1 in 4)
+        let lim_e = e - 53;
+        let j = 3 + ctx.below(40) as u32;
+        let lm = ((1u64 << 52) - 1) - (ctx.bits(52) >> j);
+        let lo = f64::from_bits((((lim_e - 1 + 1023) as u64) << 52) | lm);
+        let same = !ctx.chance(1, 4);
+        let lo = if neg == same { -lo } else { lo };
+        let d = Dd::new(hi, lo);
+        assert!(d.valid(), "aligned_rounding_pair built an invalid pair {:?}", d);
+        d
+    };
+    let a = mk(ctx);
+    let b = mk(ctx);
+    (a, b)
+}
+
 #[derive(Clone, Copy, PartialEq)]
 enum Form {
     TT,
@@ -489,6 +518,7 @@ pub fn c03() -> Property {
             g("addassign_tf", c03_addassign_tf, 300_000, 10_000_000),
             g("subassign_tf", c03_subassign_tf, 300_000, 10_000_000),
             SubCheck { name: "sum", kind: Kind::Generated { words: 2, max_items: 40 }, eval: c03_sum, quick: 60_000, thorough: 2_000_000 },
+            SubCheck { name: "sum_long", kind: Kind::Generated { words: 12, max_items: 0 }, eval: crate::p_forms::c10_sum_long, quick: 1_000, thorough: 30_000 },
         ],
     }
 }
@@ -508,7 +538,7 @@ fn c04_op(ctx: &mut Ctx, form: Form) {
     let zero_factor;
     match form {
         Form::TT | Form::AssignTT => {
-            let (a, b) = operand_pair(ctx, -450, 450);
+            let (a, b) = if ctx.chance(1, 4) { aligned_rounding_pair(ctx, -450, 450) } else { operand_pair(ctx, -450, 450) };
             a.key(ctx);
             b.key(ctx);
             note_dd(ctx, "a", a);
@@ -676,6 +706,7 @@ fn c05_op(ctx: &mut Ctx, form: DForm) {
             } else {
                 related(ctx, b, -450, 449)
             };
+            let (a, b) = if ctx.chance(1, 6) { aligned_rounding_pair(ctx, -450, 450) } else { (a, b) };
             a.key(ctx);
             b.key(ctx);
             note_dd(ctx, "a", a);
@@ -867,6 +898,29 @@ fn quotient(a: &Big, b: &Big) -> Quot {
 
 /// operands for % : b first, a placed relative to b
 fn rem_pair(ctx: &mut Ctx) -> (Dd, Dd) {
+    if ctx.chance(1, 8) {
+        // integer-valued operands beyond 2^53: a = m * 2^s (up to 2^89), b a small integer
+        ctx.label("operands:large-integers");
+        let bb = ctx.range(1, 30) as u32;
+        let bv = ((ctx.word() >> (64 - bb)) | 1) as f64;
+        let b = Dd::new(if ctx.flag() { -bv } else { bv }, 0.0);
+        let mb = ctx.range(1, 53) as u32;
+        let m = ((ctx.word() >> (64 - mb)) | (1u64 << (mb - 1))) as f64;
+        let sft = ctx.range(0, 36);
+        let hi = m * pow2_f64(sft) * if ctx.flag() { -1.0 } else { 1.0 };
+        let a = if ctx.chance(1, 3) {
+            let d = dd_at(ctx, hi);
+            let lo = d.lo.trunc();
+            if hi + lo == hi {
+                Dd::new(hi, lo)
+            } else {
+                Dd::new(hi, 0.0)
+            }
+        } else {
+            Dd::new(hi, 0.0)
+        };
+        return (a, b);
+    }
     let b = dd_exp(ctx, -400, 399, false);
     let c = ctx.weighted(&[5, 4, 4, 3, 2]);
     let in_range = |d: Dd| d.valid() && d.hi != 0.0 && exponent(d.hi) >= -400 && exponent(d.hi) < 400;
